@@ -321,6 +321,33 @@ namespace
                 }
               const auto pd = w.distance_to_plane(p, q.depth, "F");
               const double dfrom = pd.get_distance_from_surface(), dalong = pd.get_distance_along_surface();
+              // coarse, independent geometry (all sections dip alike): the body is a plane through the (gently bent) trench; a membership that is
+              // off by more than 25 km is a violation whatever the library's own distances say (also when it reports no distance at all)
+              if (kind != 5)
+                {
+                  const auto tr = trench(n);
+                  size_t seg_i = 0;
+                  while (seg_i + 2 < tr.size() && q.y > tr[seg_i+1][1]) ++seg_i;
+                  const double ty = std::min(1.0, std::max(0.0, (q.y - tr[seg_i][1]) / (tr[seg_i+1][1] - tr[seg_i][1])));
+                  const double h = q.x - (tr[seg_i][0] + ty * (tr[seg_i+1][0] - tr[seg_i][0]));
+                  const double th = s.angle[0] * PI / 180.0;
+                  const double along_ref = h * std::cos(th) + q.depth * std::sin(th), from_ref = -h * std::sin(th) + q.depth * std::cos(th);
+                  const double M = 2.5e4;
+                  const double tmin = std::min(thick, thick2), tmax = std::max(thick, thick2), rmin = std::min(trunc, trunc2), rmax = std::max(trunc, trunc2);
+                  const double lo_in = fault ? -0.5 * tmin : rmax, hi_in = fault ? 0.5 * tmin : tmin, lo_out = fault ? -0.5 * tmax : rmin, hi_out = fault ? 0.5 * tmax : tmax;
+                  static const int c_coarse = Ctx::counter_id("coarse_planar_geometry_checks");
+                  if (q.y > tr.front()[1] + 1e4 && q.y < tr.back()[1] - 1e4)
+                    {
+                      ctx.count(c_coarse);
+                      const bool surely_in = from_ref >= lo_in + M && from_ref <= hi_in - M && along_ref >= M && along_ref <= len - M;
+                      const bool surely_out = from_ref < lo_out - M || from_ref > hi_out + M || along_ref < -M || along_ref > len + M;
+                      const bool is_in_ = a[SLOT_TAG] >= 0;
+                      if ((surely_in && !is_in_) || (surely_out && is_in_))
+                        { ctx.violation("C10/sections/" + fname + "/membership-disagrees-with-the-planar-geometry-by-more-than-25-km", detail(std::string("planar construction: distance from plane ") + num(from_ref) + ", along plane " + num(along_ref) + ", interpolated length " + num(len) + (surely_in ? ": inside" : ": outside"))); break; }
+                      if (is_in_ && std::isfinite(dalong) && std::fabs(dalong - along_ref) > M)
+                        { ctx.violation("C10/sections/" + fname + "/distance-along-the-plane-off-by-more-than-25-km", detail("distance_to_plane reports " + num(dalong) + " along the plane, the planar construction gives " + num(along_ref))); break; }
+                    }
+                }
               if (std::isfinite(dfrom) && std::isfinite(dalong))
                 {
                   // two-valued quantities vary linearly along the (single) segment
@@ -379,7 +406,7 @@ int main(int argc, char **argv)
                       "locality: a probe with zero weight on the overridden section must answer bit-identically; extent: membership must equal top truncation <= distance from plane <= thickness and 0 <= distance along plane <= length with the three quantities interpolated with the observed weights (probes within 1 mm of a limit are skipped and counted)",
                       "trenches are gently bent (no three collinear coordinates: see the known C19 finding about exactly collinear coordinates)"
                      };
-  spec.counters = {"answers_compared", "answers_inside_the_feature", "probes_changed_by_an_override", "probes_outside_the_neighbour_range_checked_unchanged", "convexity_checks", "membership_checks_against_interpolated_extent", "skipped_near_boundary"};
+  spec.counters = {"answers_compared", "answers_inside_the_feature", "probes_changed_by_an_override", "probes_outside_the_neighbour_range_checked_unchanged", "convexity_checks", "membership_checks_against_interpolated_extent", "skipped_near_boundary", "coarse_planar_geometry_checks"};
   spec.quick_deadline_s = 240;
   spec.thorough_deadline_s = 1200;
   return driver(argc, argv, spec, [](const std::string &tier)
